@@ -130,6 +130,16 @@ def _part_b(ctx, tier, tot, bounds, add):
         add(res)
         b["accepted"] += res["accepted"]
         b["rejected"] += res["rejected"]
+    hist = {"n": 0, "refused": 0}
+    for res in ctx.pmap(c20_str.run_history, [(hid, tier) for hid in range(len(c20_str.HISTORIES))]):
+        add(res)
+        b["accepted"] += res["accepted"]
+        b["rejected"] += res["rejected"]
+        hist["n"] += res["hist"]
+        hist["refused"] += res["refused"]
+    ctx.count("str.creation_histories", hist["n"])
+    ctx.count("str.creation_histories_refused_evaluations", hist["refused"])
+    ctx.require(hist["n"] == len(c20_str.HISTORIES), "restricted strings: every creation history was explored")
     for pid in c20_str.PATTERNS:
         b["relations"][pid] = sorted({c20_str.relation(pid, s) for s in strings})
     bounds["strings"] = {
@@ -138,6 +148,8 @@ def _part_b(ctx, tier, tot, bounds, add):
         "max_tokens": 2 if ctx.quick else 3,
         "strings": len(strings),
         "channels": ["direct", "argv", "parse_object"],
+        "creation_histories": {"bases": {k: v[0] for k, v in c20_str.HIST_BASES.items()}, "forms": c20_str.HIST_FORMS,
+                               "histories": len(c20_str.HISTORIES), "strings": "the quick grid", "channel": "direct"},
     }
     ctx.count("str.evaluations", tot["evals"] - before)
     ctx.count("str.accepted", b["accepted"])
